@@ -14,6 +14,7 @@ DECIDED = [
     'R1: in the container merge every attachment of newer content is preceded by the new-path check (on the value for a new key, below a replaced leaf; recursion covers merged containers); the wholesale-replacement return is preceded by other._require_all_new(path, exceptions=removed).',
     'R2: Builder.flatten checks the first stage with _require_all_new([]) before folding; merge(None) raises when allow_new is false.',
     'R3: flag semantics tables: implicit_allow_new of a child = explicit else inherited; ayns.allow_new = inherited else True; both _require_all_new implementations raise exactly when allow_new is false and the path is not excepted; the container one walks nodes_with_paths(prefix=path, include_self=...).',
+    'R5: process_cmdline restores consecutive list indices (read right-to-left) to their written order.',
     'R4: process_cmdline defaults to a tag whose constructor sets allow_new=False and build_from_cmdline does not override it; !new/!notnew constructors set exactly allow_new.',
 ]
 UNDECIDED = ['the a.b[i].c=value text grammar;', '"nothing else changes" as data.']
@@ -190,6 +191,39 @@ def r4(repo, run):
         run.ok('C08.R4', bc, unparse(calls[0])[:100], 'default tag left in place')
 
 
+def r5(repo, run):
+    """list indices of an override path `a[i][j]` are read right-to-left and must be restored to written order"""
+    pc = repo.func('Config.process_cmdline')
+    loops = []
+    for f in [pc] + list(pc.nested().values()) + [g for n in pc.nested().values() for g in n.nested().values()]:
+        for w in walk_no_nested(f.node):
+            if isinstance(w, ast.While) and "endswith(']')" in norm(w.test):
+                loops.append((f, w))
+    if len(loops) != 1:
+        raise AnalysisError('process_cmdline: index-parsing loop not recognised (%d)' % len(loops))
+    f, w = loops[0]
+    src = norm(w)
+    from_right = 'rfind(' in src or 'rpartition(' in src or 'rsplit(' in src or 'rindex(' in src
+    adds = [c for c in calls_in(w) if isinstance(c.func, ast.Attribute) and c.func.attr in ('insert', 'append', 'appendleft')]
+    if not adds:
+        raise AnalysisError('process_cmdline: collection of indices not recognised')
+    a = adds[0]
+    coll = norm(a.func.value)
+    prepends = (a.func.attr == 'insert' and norm(a.args[0]) == '0') or a.func.attr == 'appendleft'
+    whole = norm(f.node)
+    reversed_later = ('reversed(%s)' % coll) in whole or ('%s[::-1]' % coll) in whole or ('%s.reverse()' % coll) in whole
+    if from_right and not prepends and not reversed_later:
+        run.violation('C08.R5', f, norm(a), 'bracket groups are taken from the right end of the path component and appended: consecutive indices come out innermost-first, so `grid[0][2]=9` addresses grid[2][0] (another existing path is changed / a mistyped path is accepted)', node=a)
+    elif (not from_right) and prepends and not reversed_later:
+        run.violation('C08.R5', f, norm(a), 'bracket groups are taken from the left and prepended: consecutive indices are reversed', node=a)
+    else:
+        run.ok('C08.R5', (f.file, a.lineno, f.qualname), norm(a), 'indices restored to written order (%s, %s)' % ('read from the right' if from_right else 'read from the left', 'prepended' if prepends else ('reversed afterwards' if reversed_later else 'appended')))
+    emit = [l for l in ast.walk(pc.node) if isinstance(l, ast.For) and norm(l.iter) in (coll, 'indices')]
+    if not emit:
+        raise AnalysisError('process_cmdline: emission of nested index mappings not recognised')
+    run.ok('C08.R5', (pc.file, emit[0].lineno, pc.qualname), norm(emit[0])[:80], 'one nested mapping per index, in order')
+
+
 def check(repo, run, tier):
     mr.key_loop_paths(repo, run, 'C08.R1k', rule_new='C08.R1')
     r1_replacement(repo, run)
@@ -198,6 +232,7 @@ def check(repo, run, tier):
     r3(repo, run)
     mr.propagation_table(repo, run, 'C08.R3', 'allow_new')
     r4(repo, run)
+    r5(repo, run)
 
 
 def mutants(repo):
@@ -213,6 +248,7 @@ def mutants(repo):
         Mutant('child-allow-new-ignores-explicit', lambda r: in_func(r, 'ComposedNode._get_child_kwargs', "notnone_or(self._allow_new, self._implicit_allow_new)", "notnone_or(self._implicit_allow_new, self._allow_new)"), ['C08.R3']),
         Mutant('allow-new-default-false', lambda r: in_func(r, 'ConfigNode.ayns._require_all_new', "if not self.ayns.allow_new and (exceptions is None or path not in exceptions):", "if not self.ayns.allow_new and exceptions is None:"), ['C08.R3']),
         Mutant('cmdline-default-tag-new', lambda r: in_func(r, 'Config.process_cmdline', "default_inline_tag='!notnew'", "default_inline_tag='!new'"), ['C08.R4']),
+        Mutant('cmdline-indices-reversed', lambda r: in_func(r, 'Config.process_cmdline', "indices.insert(0, index)", "indices.append(index)"), ['C08.R5']),
         Mutant('notnew-tag-allows', lambda r: in_func(r, 'yaml._notnew_constructor', "'allow_new': False", "'allow_new': True"), ['C08.R4']),
         Mutant('neutral-reason-text', lambda r: in_func(r, 'Builder.flatten', "'the node comes from the first config tree", "'this node comes from the first config tree"), neutral=True),
     ]
